@@ -172,6 +172,7 @@ class Tracer:
             "pool": self.pool_idx.get(t.worker_pool_id, 0) if t.worker_pool_id is not None else 0,
             "plan": self.plan_desc(t.current_placement),
             "prob": int(round(t.probability * 1000000)),
+            "ppool": (self.pool_idx.get(t.last_preemption.old_worker_pool, 0) if t.last_preemption is not None else 0),
         }
 
     def ev_desc(self, e):
@@ -180,7 +181,7 @@ class Tracer:
             "tm": self.tm(e.time),
             "t": self.task_index(e.task) if e.task is not None else 0,
             "g": self.gidx.get(e.task_graph, 0) if (e.task is None and e.task_graph is not None) else 0,
-            "pl": self.plan_desc(e.placement) if (e.placement is not None and e.event_type.value == 10) else dict(self.NOPLAN),
+            "pl": self.plan_desc(e.placement) if (e.placement is not None and e.event_type.value in (8, 10)) else dict(self.NOPLAN),
         }
 
     def ev_key(self, d):
@@ -337,6 +338,12 @@ class Tracer:
             if ty in ("TASK_NOT_READY", "WORKER_NOT_READY"):
                 t, ok = task(c[4], c[2], None, c[3])
                 return {"ty": ty, "f": [I(c[0]), t, ok, pool(c[5])], "res": []}
+            if ty == "TASK_PREEMPT":
+                t, ok = task(c[4], c[2], None, c[3])
+                return {"ty": ty, "f": [I(c[0]), t, ok], "res": []}
+            if ty == "TASK_MIGRATED":
+                t, ok = task(c[4], c[2], None, c[3])
+                return {"ty": ty, "f": [I(c[0]), t, ok, pool(c[5]), pool(c[6])], "res": res(c[7:])}
             if ty == "SCHEDULER_START":
                 return {"ty": ty, "f": [I(c[0]), I(c[2]), I(c[3])], "res": []}
             if ty == "WORKER_POOL_UTILIZATION":
